@@ -13,6 +13,27 @@ mod subst;
 pub use self::shift::Shift;
 pub use self::subst::Subst;
 
+/// Verification hook: public access to the in-place fold helpers. Only compiled with
+/// `--cfg chalk_verif`; the wrappers forward to the real functions unchanged.
+#[cfg(chalk_verif)]
+pub mod verif {
+    /// Calls `fold::in_place::fallible_map_vec`.
+    pub fn fallible_map_vec<T, U, E>(
+        vec: Vec<T>,
+        map: impl FnMut(T) -> Result<U, E>,
+    ) -> Result<Vec<U>, E> {
+        super::in_place::fallible_map_vec(vec, map)
+    }
+
+    /// Calls `fold::in_place::fallible_map_box`.
+    pub fn fallible_map_box<T, U, E>(
+        b: Box<T>,
+        map: impl FnOnce(T) -> Result<U, E>,
+    ) -> Result<Box<U>, E> {
+        super::in_place::fallible_map_box(b, map)
+    }
+}
+
 /// A "folder" is a transformer that can be used to make a copy of
 /// some term -- that is, some bit of IR, such as a `Goal` -- with
 /// certain changes applied. The idea is that it contains methods that
